@@ -91,6 +91,33 @@ fn verdict_check<B: Backend>(name: &str, got: &Result<B::E, DecErr>, want: &Resu
     Ok(())
 }
 
+/// a reader that hands out at most `chunk` bytes per `read` call (fragmented stream)
+pub struct Frag<'a> {
+    pub data: &'a [u8],
+    pub chunk: usize,
+}
+impl<'a> std::io::Read for Frag<'a> {
+    fn read(&mut self, buf: &mut [u8]) -> std::io::Result<usize> {
+        let n = buf.len().min(self.chunk).min(self.data.len());
+        buf[..n].copy_from_slice(&self.data[..n]);
+        self.data = &self.data[n..];
+        Ok(n)
+    }
+}
+
+/// stream deserialisation from fragmented readers must give the same verdict and element
+fn fragmented(arr: &[u8; 32], want: &Result<Pt, crate::refmodel::Invalid>, ctx: &mut Ctx) -> Result<(), Failure> {
+    use ark_ec::AffineRepr;
+    use ark_serialize::CanonicalDeserialize;
+    for chunk in [1usize, 7, 31] {
+        let e = ark::Element::deserialize_compressed(Frag { data: &arr[..], chunk }).map_err(|_| DecErr::Other);
+        verdict_check::<Ark>("ark:Element::deserialize_compressed(fragmented-reader)", &e, want, arr, ctx)?;
+        let a = <ark::Element as ark_ec::CurveGroup>::Affine::deserialize_compressed(Frag { data: &arr[..], chunk }).map(|a| a.into_group()).map_err(|_| DecErr::Other);
+        verdict_check::<Ark>("ark:AffinePoint::deserialize_compressed(fragmented-reader)", &a, want, arr, ctx)?;
+    }
+    Ok(())
+}
+
 /// the oracle for one 32-byte string, shared with the libFuzzer target
 pub fn check_b32(arr: &[u8; 32], ctx: &mut Ctx) -> Result<(), Failure> {
     let want = CURVE.decode_spec(arr);
@@ -101,6 +128,7 @@ pub fn check_b32(arr: &[u8; 32], ctx: &mut Ctx) -> Result<(), Failure> {
     for (name, got) in min_entry_points(arr) {
         verdict_check::<Min>(name, &got, &want, arr, ctx)?;
     }
+    fragmented(arr, &want, ctx)?;
     Ok(())
 }
 
